@@ -1,0 +1,191 @@
+//! Verification hooks. Compiled only when the crate is built with `--cfg folo_verif`.
+//!
+//! Nothing in this module (and none of the `#[cfg(folo_verif)]` items elsewhere in the crate)
+//! exists in a normal build. The hooks are used by an external verification harness that needs
+//! three things the public API cannot give it:
+//!
+//! 1. **Slab capacity override** ([`set_slab_capacity_override`]). Slabs normally hold 32..16384
+//!    objects, so short operation histories never leave the first slab. With the override every
+//!    pool created afterwards uses slabs of exactly the given capacity (e.g. 2 or 3 objects).
+//!    The override is process-global and is read once per pool, when the pool's slab layout is
+//!    calculated (for blind pools: when the inner pool for a layout is first created).
+//!    Default: no override.
+//!
+//! 2. **Read-only probe** ([`PoolProbe`], `verif_probe()` on every pool type). A snapshot of the
+//!    internal bookkeeping of a `RawOpaquePool`: per-slab count, free list, occupancy tags,
+//!    the vacancy bitmap (raw blocks and bit length), the cached next vacancy and the pool length.
+//!    Thread-safe pools take their mutex and single-threaded pools borrow their `RefCell` for the
+//!    duration of the snapshot; blind pools return one probe per inner pool.
+//!
+//! 3. **Event callback** ([`set_event_callback`]). A plain function pointer that is invoked at the
+//!    END of every `RawOpaquePool` mutator (`insert*`, `remove`, `remove_unpin`, `reserve`,
+//!    `shrink_to_fit`), i.e. after all bookkeeping of that operation is complete and - for the
+//!    thread-safe and single-threaded managed pools - while the pool's mutex / `RefCell` borrow is
+//!    still held by the caller. The order of callback invocations for one pool is therefore the
+//!    order in which the operations took effect (a linearization log). The callback must not
+//!    call back into the pool that emitted the event (it would deadlock / double-borrow).
+//!
+//!    No event is emitted when a mutator unwinds (a panicking `insert_with` closure, a panicking
+//!    destructor in `remove`): the hook statement sits at the normal end of the function.
+//!    `reserve` and `shrink_to_fit` emit an event even when they had nothing to do.
+
+use std::num::NonZero;
+use std::sync::atomic::{AtomicPtr, AtomicUsize, Ordering};
+
+/// Value used for [`Event::slab`] / [`Event::slot`] when the operation does not concern one slot.
+pub const NO_INDEX: usize = usize::MAX;
+
+static SLAB_CAPACITY_OVERRIDE: AtomicUsize = AtomicUsize::new(0);
+static NEXT_POOL_ID: AtomicUsize = AtomicUsize::new(1);
+static EVENT_CALLBACK: AtomicPtr<()> = AtomicPtr::new(std::ptr::null_mut());
+
+/// Installs (`Some`) or removes (`None`) the process-global slab capacity override.
+///
+/// Affects pools whose slab layout is calculated after the call; existing pools keep theirs.
+pub fn set_slab_capacity_override(capacity: Option<NonZero<usize>>) {
+    SLAB_CAPACITY_OVERRIDE.store(capacity.map_or(0, NonZero::get), Ordering::SeqCst);
+}
+
+/// The currently installed slab capacity override, if any.
+#[must_use]
+pub fn slab_capacity_override() -> Option<NonZero<usize>> {
+    NonZero::new(SLAB_CAPACITY_OVERRIDE.load(Ordering::SeqCst))
+}
+
+/// Allocates the identity of a new `RawOpaquePool` (small integers starting at 1, never reused).
+#[must_use]
+pub(crate) fn next_pool_id() -> usize {
+    NEXT_POOL_ID.fetch_add(1, Ordering::Relaxed)
+}
+
+/// Kind of `RawOpaquePool` mutator that emitted an [`Event`].
+#[derive(Clone, Copy, Debug, Eq, Hash, PartialEq)]
+pub enum Op {
+    /// `insert`, `insert_unchecked`, `insert_with`, `insert_with_unchecked` (successful).
+    Insert,
+    /// `remove` (object destroyed in place).
+    Remove,
+    /// `remove_unpin` (object moved out to the caller).
+    RemoveUnpin,
+    /// `reserve` (also when the capacity was already sufficient).
+    Reserve,
+    /// `shrink_to_fit` (also when nothing could be released).
+    ShrinkToFit,
+}
+
+/// What a `RawOpaquePool` mutator reports when it has finished.
+#[derive(Clone, Copy, Debug, Eq, PartialEq)]
+pub struct Event {
+    /// Identity of the `RawOpaquePool` (see [`PoolProbe::pool_id`]); unique per process.
+    pub pool: usize,
+    /// Which mutator finished.
+    pub op: Op,
+    /// Slab index of the affected slot, [`NO_INDEX`] for `Reserve` / `ShrinkToFit`.
+    pub slab: usize,
+    /// Slot index (within the slab) of the affected slot, [`NO_INDEX`] for `Reserve` / `ShrinkToFit`.
+    pub slot: usize,
+    /// `len()` of the pool after the operation.
+    pub len: usize,
+}
+
+/// Signature of the event callback.
+pub type EventFn = fn(&Event);
+
+/// Installs (`Some`) or removes (`None`) the process-global event callback.
+///
+/// See the module documentation for when and under which locks the callback runs.
+pub fn set_event_callback(callback: Option<EventFn>) {
+    let raw = callback.map_or(std::ptr::null_mut(), |f| f as *mut ());
+    EVENT_CALLBACK.store(raw, Ordering::SeqCst);
+}
+
+/// Invokes the installed event callback, if any.
+#[inline]
+pub(crate) fn emit(pool: usize, op: Op, slab: usize, slot: usize, len: usize) {
+    let raw = EVENT_CALLBACK.load(Ordering::SeqCst);
+
+    if raw.is_null() {
+        return;
+    }
+
+    // SAFETY: The only non-null values ever stored are `EventFn` pointers (set_event_callback).
+    let callback = unsafe { std::mem::transmute::<*mut (), EventFn>(raw) };
+
+    callback(&Event {
+        pool,
+        op,
+        slab,
+        slot,
+        len,
+    });
+}
+
+/// How the walk along a slab's free list ended.
+#[derive(Clone, Copy, Debug, Eq, PartialEq)]
+pub enum FreeListEnd {
+    /// The walk reached an index at or beyond the slab capacity (the regular terminator).
+    Terminated,
+    /// The walk arrived at a slot whose tag says "occupied".
+    HitOccupied,
+    /// The walk took more steps than the slab has slots (there is a cycle).
+    Cycle,
+}
+
+/// Snapshot of one slab.
+#[derive(Clone, Debug, Eq, PartialEq)]
+pub struct SlabProbe {
+    /// Address of the first slot (start of the slab's heap block).
+    pub base: usize,
+    /// The slab's cached count of occupied slots.
+    pub count: usize,
+    /// Head of the free list.
+    pub next_free_slot_index: usize,
+    /// Per slot: does the occupancy tag say "occupied"?
+    pub occupied: Vec<bool>,
+    /// Per slot: `None` if the tag says "occupied", else the `next_free_slot_index` stored in
+    /// the vacant tag (the raw link, whatever it points at).
+    pub vacant_next: Vec<Option<usize>>,
+    /// Slot indexes visited by following the free list from its head, in order. The walk stops at
+    /// the first index that is not a vacant in-bounds slot, or after `capacity` steps.
+    pub free_list: Vec<usize>,
+    /// The index at which the walk stopped (not included in `free_list`).
+    pub free_list_stop: usize,
+    /// Why the walk stopped.
+    pub free_list_end: FreeListEnd,
+}
+
+/// Snapshot of one `RawOpaquePool`.
+#[derive(Clone, Debug, Eq, PartialEq)]
+pub struct PoolProbe {
+    /// Identity of the pool; the same value appears in [`Event::pool`].
+    pub pool_id: usize,
+    /// Slots per slab.
+    pub slab_capacity: usize,
+    /// `size` of the object layout.
+    pub object_size: usize,
+    /// `align` of the object layout.
+    pub object_align: usize,
+    /// Distance in bytes between consecutive slots.
+    pub slot_size: usize,
+    /// Alignment of a slot (and of the slab's heap block).
+    pub slot_align: usize,
+    /// Offset of the object inside its slot (the occupancy tag sits at offset 0).
+    pub slot_to_object_offset: usize,
+    /// Size in bytes of the occupancy tag at the start of every slot.
+    pub meta_size: usize,
+    /// Size in bytes of a slab's heap block.
+    pub slab_bytes: usize,
+    /// Whether the pool was built with `DropPolicy::MustNotDropContents`.
+    pub must_not_drop_contents: bool,
+    /// The pool's cached length.
+    pub len: usize,
+    /// The slabs, in index order.
+    pub slabs: Vec<SlabProbe>,
+    /// `len_bits` of the vacancy bitmap.
+    pub vacancy_len_bits: usize,
+    /// Raw blocks of the vacancy bitmap (bit `i % 64` of block `i / 64` belongs to slab `i`),
+    /// including whatever the bits beyond `vacancy_len_bits` currently hold.
+    pub vacancy_blocks: Vec<u64>,
+    /// The vacancy tracker's cached lowest slab index with a vacancy.
+    pub next_vacancy: Option<usize>,
+}
